@@ -142,6 +142,26 @@ def run(ctx):
                           "reader and writer cache answer %s::%s with the same query (%s / %s)" % (mod, m, d["reader"], d["writer"]))
         ctx.floor("sib:%s" % mod, cnt, 3, "query methods implemented by both reader and writer caches")
 
+    # the cache row mirrors whatever the store evaluates to: the write-through upsert is unconditional (an object can
+    # also *shrink*, e.g. when a peer's ref to it disappears) and stores the object it was given
+    nu = 0
+    for fn, bb, s_ in sql.statements(db):
+        if s_ is None or not fn["file"].endswith(("cob/patch/cache.rs", "cob/issue/cache.rs")):
+            continue
+        info = sql.upsert_info(s_)
+        if not info or info.get("table") not in ("issues", "patches"):
+            continue
+        nu += 1
+        col = {"issues": "issue", "patches": "patch"}[info["table"]]
+        txt = " ".join(s_.split())
+        setv = " ".join(info["set"].get(col, []))
+        ok_set = bool(re.match(r"^\(?\s*(\?3|excluded\s*\.\s*%s)\s*\)?$" % col, setv.replace(" ", "")) or setv.replace(" ", "") in ("(?3)", "?3", "excluded.%s" % col))
+        ctx.check("sql:%s:update:unconditional" % info["table"], not info["where"] and ok_set,
+                  "the write-through upsert of `%s` replaces the cached object unconditionally with the one given (no WHERE on DO UPDATE; found SET %s%s)"
+                  % (info["table"], setv, (" WHERE " + " AND ".join(" ".join(c) for c in info["where"])) if info["where"] else ""),
+                  rules.where(fn, bb), detail=txt, fn=fn)
+    ctx.floor("sql:cache-upserts", nu, 2, "write-through upserts of the issue and patch caches")
+
     # SQL
     m = 0
     for fn, bb, s in sql.statements(db):
